@@ -116,7 +116,11 @@ def run_case(case):
                     for sv in itertools.product(*[v for _, v in sub])]
         requested = set(tuple(models.plain(v) for v in s) for s in settings)
         if case.get("case_spelling") == "dict":
-            cases_in = [dict(zip(cargs, c)) for c in cs]
+            cases_in = []
+            for i_, c in enumerate(cs):
+                items = list(zip(cargs, c))
+                r_ = (i_ * case.get("key_rot", 0)) % len(items)
+                cases_in.append(dict(items[r_:] + items[:r_]))
         else:
             cases_in = [tuple(c) for c in cs]
 
@@ -138,7 +142,9 @@ def run_case(case):
                     verbosity=0, **desc_kw, **run_opts)
         elif entry == "combo_to_ds_cases":
             out = x.combo_runner_to_ds(
-                fn, combos, var_names, cases=[dict(zip(cargs, c)) for c in cs],
+                fn, combos, var_names,
+                cases=(cases_in if case.get("case_spelling") == "dict"
+                       else [dict(zip(cargs, c)) for c in cs]),
                 constants=consts or None, verbosity=0, **desc_kw, **run_opts)
         elif entry in ("case_to_ds", "case_to_df"):
             f = x.case_runner_to_df if to_df else x.case_runner_to_ds
@@ -298,6 +304,7 @@ def strategy(draw):
         else:
             case["subgrid"] = []
         case["case_spelling"] = draw(st.sampled_from(["dict", "tuple"]))
+        case["key_rot"] = draw(st.integers(0, 2))
     return case
 
 
